@@ -38,9 +38,13 @@ impl SimulationBoundary {
             HalfSpace::new(DVec3::NEG_Z, anchor + width, None, None),
         ];
 
+        // The integer grid must strictly contain the (closed) box and the mirror images
+        // of all generators through its walls, i.e. [anchor - width, anchor + 2 * width],
+        // _including_ both end points (generators may lie exactly on the boundary of the
+        // simulation volume). Use [anchor - 1.5 * width, anchor + 2.5 * width).
         Self {
-            anchor: anchor - width,
-            inverse_width: 1. / (3. * width),
+            anchor: anchor - 1.5 * width,
+            inverse_width: 1. / (4. * width),
             dimensionality,
             clipping_planes,
         }
